@@ -82,22 +82,47 @@ func soNot(a *soTerm) *soTerm {
 	return &soTerm{op: "not", ty: "B", args: []*soTerm{a}}
 }
 
+// soAnd: conjunction, normalised — the conjuncts of both sides flattened, sorted and without duplicates (the terms
+// are pure, so `&&` commutes), literals folded
 func soAnd(a, b *soTerm) *soTerm {
-	switch {
-	case a.op == "bool":
-		if a.s == "true" {
-			return b
+	var parts []*soTerm
+	var collect func(t *soTerm) bool
+	collect = func(t *soTerm) bool {
+		switch {
+		case t.op == "bool":
+			return t.s == "true"
+		case t.op == "and":
+			return collect(t.args[0]) && collect(t.args[1])
 		}
-		return a
-	case b.op == "bool":
-		if b.s == "true" {
-			return a
-		}
-		return b
-	case a.String() == b.String():
-		return a
+		parts = append(parts, t)
+		return true
 	}
-	return &soTerm{op: "and", ty: "B", args: []*soTerm{a, b}}
+	if !collect(a) || !collect(b) {
+		return soBool(false)
+	}
+	sort.SliceStable(parts, func(i, j int) bool { return parts[i].String() < parts[j].String() })
+	var uniq []*soTerm
+	for i, p := range parts {
+		if i > 0 && p.String() == parts[i-1].String() {
+			continue
+		}
+		uniq = append(uniq, p)
+	}
+	for i := range uniq { // x and not x
+		for j := range uniq {
+			if uniq[j].op == "not" && uniq[j].args[0].String() == uniq[i].String() {
+				return soBool(false)
+			}
+		}
+	}
+	if len(uniq) == 0 {
+		return soBool(true)
+	}
+	r := uniq[len(uniq)-1]
+	for i := len(uniq) - 2; i >= 0; i-- {
+		r = &soTerm{op: "and", ty: "B", args: []*soTerm{uniq[i], r}}
+	}
+	return r
 }
 
 func soOr(a, b *soTerm) *soTerm { return soNot(soAnd(soNot(a), soNot(b))) }
@@ -783,8 +808,8 @@ func (e *soEval) eval(st *soState, x ast.Expr) soVal {
 		if t.Sel.Name == "Changed" {
 			if call, ok := t.X.(*ast.CallExpr); ok {
 				if sel, ok := call.Fun.(*ast.SelectorExpr); ok && sel.Sel.Name == "Lookup" && len(call.Args) == 1 {
-					if n, ok := soLitString(call.Args[0]); ok {
-						return &soTerm{op: "changed", ty: "B", s: n}
+					if n := e.term(st, call.Args[0]); n.op == "str" { // a literal, or a local that holds one
+						return &soTerm{op: "changed", ty: "B", s: n.s}
 					}
 				}
 			}
@@ -935,6 +960,9 @@ func (e *soEval) recordSink(st *soState, callee string, args []soVal) {
 	snap := make([]soVal, len(args))
 	m := soMemo{}
 	for i, a := range args {
+		if sv, ok := a.(*soStruct); ok { // handed to the constructor: read
+			e.markRead(sv, "")
+		}
 		snap[i] = e.cloneVal(a, m)
 	}
 	e.sinks = append(e.sinks, soSink{callee: callee, args: snap, path: st.path, fn: st.top().fn})
